@@ -275,8 +275,10 @@ def bracket (d : Char) (p : List Char) : BrOut :=
   | .nomatch => .fail
   | .unterminated => .literal
   | .matched rest =>
+    -- glibc 2.36: when the closing `]` is missing behind a matched element, the `[` is an ordinary
+    -- character as well (older versions: no match).  A pattern ending in `\` cannot match on either path.
     (match skipBracket rest with
-     | none => .fail
+     | none => .literal
      | some p' => if neg then .fail else .consumed (p.length - p'.length))
   | .unmatched p' => if neg then .consumed (p.length - p'.length) else .fail
 
